@@ -156,8 +156,14 @@ pub fn gen_tree(g: &mut Gen) -> Prog {
         let m = g.span(|g| gen_module(g, MOD_NAMES[perm[k]], 1, &mut next_val, &mut budget));
         p.root.mods.push(m);
     }
-    if p.all_fns().is_empty() {
-        p.root.mods[0].fns.push(Func { name: "fa".into(), public: true, val: 101.0 });
+    // at least one function that can be reached from everywhere
+    if !p.root.mods.iter().any(|m| m.fns.iter().any(|f| f.public)) {
+        let m = &mut p.root.mods[0];
+        if m.fns.is_empty() {
+            m.fns.push(Func { name: "fa".into(), public: true, val: 100.0 });
+        } else {
+            m.fns[0].public = true;
+        }
     }
     p
 }
